@@ -410,11 +410,16 @@ def run_property(pid, tier, seed, work, which, explanation):
         vlib.run_jobs(sj, work)
         pat = re.compile(SETUP_KEEP[pid])
         rep.absorb(sj, keep=lambda d: (not d.startswith("OBL:")) or bool(pat.match(d)))
+        if pid == "C13":
+            import C18
+            lj = [C18.build_jobs("quick", seed)[0]]           # chooseNumberOfLevels: must not rewrite the level-cap option
+            vlib.run_jobs(lj, work)
+            rep.absorb(lj, replay_cb=C18.levels_replay_cb, keep=lambda d: (not d.startswith("OBL:")) or d.startswith("OBL:chooseNumberOfLevels_leaves"))
         explanation += (" Second half of setup() (props/setup_tail.py, plain CBMC, <= 8 levels, every extrapolation mode and FMG flag): the verbatim text "
                         "from the interpolation object to the end of setup() over level / operator / rhs tokens: per-level operators exist exactly as "
                         "solve() and the cycles need them, each built with the thread count of its level; full_grid_smoothing_ matches the mode (the "
                         "precondition of the solve() contract); the rhs is injected before it is discretised and ends l-fold injected + discretised "
-                        "on every level that needs one (all levels with FMG).")
+                        "on every level that needs one (all levels with FMG); setup() (this part and chooseNumberOfLevels) leaves the user's options unchanged.")
     rep.extraction = {"rules_fired": jobs[0].rules.summary(), "body_sha256_16": jobs[0].hashes, "dropped": DROPPED}
     rep.trusted, rep.assumptions = TRUSTED, ASSUMED
     return rep.finish("other", explanation,
